@@ -175,6 +175,18 @@ CHECKS['C18'] = dict(
     technique='Coq proofs about the dump (elision) model composed with the loader model; vm_compute correspondence dump_doc = emitted tagged graph and load_doc = parse on dumped text; '
               'substitute-in-merge-sequence / metadata / evaluate / second-dump oracles for replays')
 
+CHECKS['C20'] = dict(
+    text='Machine-checked: C20_noninterference (for EVERY number of threads, every list of slot actions per thread and EVERY interleaving, what a thread observes - the file and source '
+         'safety each node records, the marker api_entry sees - equals what it observes running alone), C20_independent_of_others (it does not depend on which other threads exist or '
+         'whether they fail), C20_no_unlisted_shared_state, and C20_shared_slot_refuted (the same machine with one slot shared has a failing interleaving - the counter-example that guides '
+         'the search). The theorems rest on facts re-read from the code on every run (the three slots are threading.local; an ast scan finds no other module- or class-level write in the '
+         'anchored files). The slot machine is tied to the code by programs traced from real builds and by driving model and real code with the same slot-granular interleavings. '
+         'Partial: CPython\'s threading.local and the GIL, races on state the scan does not see (lazy class caches, sys.modules), and object-level races inside one builder are runtime '
+         'behaviour outside the model; they are explored by the deterministic line-granularity scheduler on the real code (<= 2 / <= 3 pre-emptions), not proved.',
+    design='4 (C20)',
+    technique='Coq proof of non-interference for the slot machine over all interleavings (induction on the schedule); facts from isinstance / ast scan; vm_compute correspondence on traced slot '
+              'programs under identical interleavings; deterministic settrace scheduler on the real code, guided by the model counter-example, for replays')
+
 NOT_APPLICABLE = {}
 
 
